@@ -223,6 +223,20 @@ def in_list_formula(cfg, members, alg=None):
 # ---------------------------------------------------------------------------
 # symbolic harness
 # ---------------------------------------------------------------------------
+class _Facade:
+  """RecipeManager reached through the public Quantizer facade."""
+
+  def __init__(self):
+    from ai_edge_quantizer import quantizer as quantizer_lib
+    self.q = quantizer_lib.Quantizer(bytearray(b''), None)
+
+  def add_quantization_config(self, regex, op, cfg, alg):
+    return self.q.update_quantization_recipe(regex, op, cfg, alg)
+
+  def get_quantization_configs(self, op, scope):
+    return self.q._recipe_manager.get_quantization_configs(op, scope)
+
+
 def make_sym_harness(op, alg):
   members = [c for a, o, c in accepted_pairs() if a == alg and o == op]
   if alg == ALGS[1]:
@@ -240,7 +254,7 @@ def make_sym_harness(op, alg):
     e.assume(z3.Not(cfg.skip_checks.z) if isinstance(cfg.skip_checks, SymBool)
              else z3.BoolVal(not cfg.skip_checks))
     # specific operator at update time
-    rm = recipe_manager.RecipeManager()
+    rm = _Facade()
     outcome = 'accepted'
     try:
       rm.add_quantization_config('.*', op, cfg, alg)
@@ -256,7 +270,7 @@ def make_sym_harness(op, alg):
                                                       outcome])
     # '*' at update time never raises; at resolution time applies iff the
     # specific update accepts
-    rm2 = recipe_manager.RecipeManager()
+    rm2 = _Facade()
     star = 'ok'
     try:
       rm2.add_quantization_config('.*', _Op.ALL_SUPPORTED, cfg, alg)
@@ -278,7 +292,7 @@ def make_sym_harness(op, alg):
     # history independence of the "*" path: after an accepted "*" rule has
     # been resolved once, replacing it resolves like a fresh manager
     if got is not None and members:
-      rm3 = recipe_manager.RecipeManager()
+      rm3 = _Facade()
       try:
         rm3.add_quantization_config('.*', _Op.ALL_SUPPORTED, members[0], alg)
         rm3.get_quantization_configs(op, 'scope;')
@@ -516,7 +530,7 @@ def replay(c):
   except ValueError as ex:
     return False, 'unconstructible', str(ex)
   what = f'{op.value} / {alg} / {cfg}'
-  rm = recipe_manager.RecipeManager()
+  rm = _Facade()
   try:
     rm.add_quantization_config('.*', op, cfg, alg)
     outcome = 'accepted'
@@ -524,7 +538,7 @@ def replay(c):
     outcome = 'refused'
   except Exception as ex:  # pylint: disable=broad-except
     return True, f'update raises {type(ex).__name__}', f'{what}: {ex}'
-  rm2 = recipe_manager.RecipeManager()
+  rm2 = _Facade()
   try:
     rm2.add_quantization_config('.*', _Op.ALL_SUPPORTED, cfg, alg)
     got = rm2.get_quantization_configs(op, 'scope;')
@@ -534,7 +548,7 @@ def replay(c):
   bad = []
   members_ = [m for a, o, m in accepted_pairs() if a == alg and o == op]
   if members_:
-    rm3 = recipe_manager.RecipeManager()
+    rm3 = _Facade()
     rm3.add_quantization_config('.*', _Op.ALL_SUPPORTED, members_[0], alg)
     rm3.get_quantization_configs(op, 'scope;')
     rm3.add_quantization_config('.*', _Op.ALL_SUPPORTED, cfg, alg)
